@@ -791,7 +791,12 @@ class CircuitOperation(ops.Operation):
                 keys than this operation.
         """
         new_map = {}
-        for k_obj in protocols.measurement_keys_touched(self.circuit):
+        touched = protocols.measurement_keys_touched(self.circuit)
+        if self.repeat_until is not None:
+            # The loop condition may read a key the body never mentions (one measured in an
+            # enclosing scope); it must be renamed like any other control key.
+            touched = touched | frozenset(self.repeat_until.keys)
+        for k_obj in touched:
             k = k_obj.name
             k_new = self.measurement_key_map.get(k, k)
             k_new = key_map.get(k_new, k_new)
